@@ -167,3 +167,19 @@ func vBytesEq(a, b []byte) bool {
 	}
 	return true
 }
+
+// vPad builds a buffer of exactly k prefix bytes (filler 0xAA, ending in the
+// last min(k,len(junk)) bytes of junk) followed by text.
+func vPad(k int, junk []byte, text []byte) []byte {
+	b := make([]byte, 0, k+len(text))
+	j := len(junk)
+	if j > k {
+		j = k
+	}
+	for i := 0; i < k-j; i++ {
+		b = append(b, 0xAA)
+	}
+	b = append(b, junk[len(junk)-j:]...)
+	b = append(b, text...)
+	return b
+}
